@@ -1,6 +1,8 @@
 package sim
 
 import (
+	cvmtypes "github.com/certikfoundation/shentu/x/cvm/types"
+	authtypes "github.com/cosmos/cosmos-sdk/x/auth/types"
 	"time"
 
 	sdk "github.com/cosmos/cosmos-sdk/types"
@@ -20,9 +22,9 @@ import (
 // voting ends and payout times actually occur).
 type ShieldCfg struct {
 	Protection, Withdraw, Voting, Payout, Unbonding time.Duration
-	MinPurchase                                  int64
-	FeesRate, PoolLimit, StakingRate, DepositRate sdk.Dec
-	MinClaimDeposit                              int64
+	MinPurchase                                     int64
+	FeesRate, PoolLimit, StakingRate, DepositRate   sdk.Dec
+	MinClaimDeposit                                 int64
 }
 
 func shieldPatch(sc ShieldCfg, depositPeriod time.Duration, t0 time.Time) func(enc appparams.EncodingConfig, gs app.GenesisState) {
@@ -132,6 +134,15 @@ func ShieldProfile(seed int64, out *Recorder, nOps int) *Chain {
 	coin := func(a int64) sdk.Coins { return c.Coins(a, Bond) }
 	limitChoices := []int64{1000000000, 5000000, 0, 50000000000}
 	for i := 0; i < nOps && c.Halted == ""; i++ {
+		// once in a while somebody tries to pay coins into the module's account through the VM (a call carrying value): the
+		// bank refuses plain sends to module accounts, and the books of this module rely on it (own random stream)
+		if r3 := newRng(seed*131 + int64(i)); r3.Intn(40) == 0 {
+			from := r3.Intn(cfg.NAcc)
+			ma := authtypes.NewModuleAddress("shield")
+			value := uint64(1 + r3.Intn(5000))
+			m := cvmtypes.NewMsgCall(c.Accts[from].Addr.String(), ma.String(), value, nil)
+			c.DoGas(from, 3000000, DefaultFee, []D{{"t": "cvm.call", "caller": Hex(c.Accts[from].Addr), "callee": Hex(ma), "kind": "none", "value": value, "data": "", "expect": "any"}}, nil, &m)
+		}
 		ctx := c.Ctx()
 		pools := sk.GetAllPools(ctx)
 		totalColl := sk.GetTotalCollateral(ctx).Int64()
@@ -435,11 +446,12 @@ func ShieldProfile(seed int64, out *Recorder, nOps int) *Chain {
 
 // shieldScenario plays a scripted opening that puts the module into a situation the random generator reaches rarely; amounts
 // are drawn around the boundaries that matter.  The history continues with random operations afterwards.
-//   0: a claim for the whole shield is paid by a provider most of whose collateral sits in one queued withdrawal
-//      (the payout must shrink that entry by exactly what it takes)
-//   1: an old large withdrawal about to mature and a fresh small one; then a claim whose lock must postpone the old one only
-//   2: a provider undelegates most of its stake while somebody else redelegates in the same block; a claim then has to
-//      postpone the provider's unbonding entry (and nothing else in the staking queues)
+//
+//	0: a claim for the whole shield is paid by a provider most of whose collateral sits in one queued withdrawal
+//	   (the payout must shrink that entry by exactly what it takes)
+//	1: an old large withdrawal about to mature and a fresh small one; then a claim whose lock must postpone the old one only
+//	2: a provider undelegates most of its stake while somebody else redelegates in the same block; a claim then has to
+//	   postpone the provider's unbonding entry (and nothing else in the staking queues)
 func shieldScenario(c *Chain, rng interface{ Intn(int) int }, kind int, sc ShieldCfg, cfg GenCfg, admin, certifier int, unit time.Duration) bool {
 	sk := c.App.VerifShieldKeeper()
 	coin := func(a int64) sdk.Coins { return c.Coins(a, Bond) }
